@@ -10,6 +10,12 @@ def run(ctx, replay=None):
     exe = prepare(ctx, props, 'h_enc', CORE_SRCS, ['h_enc.c'])
     if exe is None:
         ctx.finish('build failed')
+    if replay and json.load(open(replay)).get('replay', {}).get('area') == 'conf':
+        import c17_conf
+        ok = c17_conf.replay_conf(ctx, replay)
+        if not ok:
+            print('VIOLATION property=C17 replay=%s' % replay); sys.exit(1)
+        print('replay: no crash, no timeout, no sanitizer report and agreement with the model on these ops'); sys.exit(0)
     if replay:
         il, ml, ops = replay_ops(ctx, 'enc', exe, replay)
         bad = [o for i, o in enumerate(ops) if i >= len(il) or il[i] in ('CRASH', 'TIMEOUT', 'NOTERM') or il[i].startswith('TOOLONG') or (i < len(ml) and il[i] != ml[i])]
